@@ -90,6 +90,8 @@ theorem no_leak_document (e : BEnv) (he : e.isNCName [] = false) (Γ : Ctx) (cfg
   | syntaxError => intro h; cases h
   | codecError s => intro h; cases h
   | includeError => intro h; cases h
+  | stopped => intro h; cases h
+  | textDecodeError => intro h; cases h
 
 /-- every tokenizer outcome is inhabited and maps where it should -/
 example :
